@@ -348,6 +348,15 @@ pub const OPEN: &[(&str, Fam, OpenFn)] = &[
             b.decrypt::<Vec<u8>, _, _>(&ks.n, &ks.k)
         })
     }),
+    ("DryocSecretBox::with_data_and_mac->decrypt", Fam::Sb, |ks, w, _| {
+        if w.len() < 16 {
+            return na();
+        }
+        object(|| {
+            let b: DryocSecretBox<SM, Vec<u8>> = DryocSecretBox::with_data_and_mac(SM::from(&mac16(w)), &w[16..]);
+            b.decrypt_to_vec(&ks.n, &ks.k)
+        })
+    }),
     ("box_open_easy", Fam::Bx, |ks, w, s| copying(w.len().saturating_sub(16), s, |m| cb::crypto_box_open_easy(m, w, &ks.n, &ks.pk_a, &ks.sk_b))),
     ("box_open_detached", Fam::Bx, |ks, w, s| {
         if w.len() < 16 {
@@ -384,6 +393,15 @@ pub const OPEN: &[(&str, Fam, OpenFn)] = &[
             b.decrypt::<_, _, _, Vec<u8>>(&BN::from(&ks.n), &BPK::from(&ks.pk_a), &BSK::from(&ks.sk_b))
         })
     }),
+    ("DryocBox::new_with_data_and_mac->decrypt", Fam::Bx, |ks, w, _| {
+        if w.len() < 16 {
+            return na();
+        }
+        object(|| {
+            let b: DryocBox<BPK, BM, Vec<u8>> = DryocBox::new_with_data_and_mac(BM::from(&mac16(w)), &w[16..]);
+            b.decrypt_to_vec(&BN::from(&ks.n), &BPK::from(&ks.pk_a), &BSK::from(&ks.sk_b))
+        })
+    }),
     ("DryocBox::from_bytes->decrypt_to_vec[vec keys]", Fam::Bx, |ks, w, _| {
         object(|| {
             let b: dryoc::dryocbox::VecBox = DryocBox::from_bytes(w)?;
@@ -416,6 +434,18 @@ pub const OPEN: &[(&str, Fam, OpenFn)] = &[
             let b: DryocBox<BPK, BM, Vec<u8>> = DryocBox::from_sealed_bytes(w)?;
             let kp: KeyPair<BPK, BSK> = KeyPair::from_slices(&ks.pk_b, &ks.sk_b)?;
             b.unseal::<_, _, Vec<u8>>(&kp)
+        })
+    }),
+    ("DryocBox::new_with_epk_data_and_mac->unseal_to_vec", Fam::Seal, |ks, w, _| {
+        if w.len() < 48 {
+            return na();
+        }
+        object(|| {
+            let epk: [u8; 32] = w[..32].try_into().unwrap();
+            let mac: [u8; 16] = w[32..48].try_into().unwrap();
+            let b: DryocBox<BPK, BM, Vec<u8>> = DryocBox::new_with_epk_data_and_mac(BPK::from(&epk), BM::from(&mac), &w[48..]);
+            let kp: KeyPair<BPK, BSK> = KeyPair::from_slices(&ks.pk_b, &ks.sk_b)?;
+            b.unseal_to_vec(&kp)
         })
     }),
     ("DryocBox::from_sealed_bytes->unseal_to_vec", Fam::Seal, |ks, w, _| {
